@@ -111,7 +111,12 @@ func (w *srvWorld) probeC03() {
 
 // C06: concurrency bound and work conservation.
 func scenarioC06(r *Run) {
-	w := newSrvWorld(r, srvCfg{Prop: "C06", MaxMsgs: 5, MaxBatch: 6, RPCInfo: true, Cancels: 2, Pushes: 2, AnswerAll: true, HoldP: 0.6, NoteP: 0.2, KMax: 4, BigK: true})
+	w := newSrvWorld(r, srvCfg{Prop: "C06", MaxMsgs: 5, MaxBatch: 6, RPCInfo: true, Cancels: 2, Pushes: 2, Stops: 1, EarlyCloseP: 0.15, AnswerAll: true, HoldP: 0.6, NoteP: 0.25, KMax: 4, BigK: true})
+	if r.Gen.Chance("earlyclose", 0.15) {
+		// the peer goes away while handlers are held and requests are queued: the
+		// limit holds for what the server still runs after that
+		w.closeAfter = r.Gen.Int("closeafter", len(w.msgs)+1)
+	}
 	var waiter []*member
 	w.start()
 	ok := w.drive(func() {
@@ -212,7 +217,7 @@ func scenarioC07(r *Run) {
 // C09: server push. Calls of the client use ids 1,2,3,... which collide with
 // the callback ids of the server.
 func scenarioC09(r *Run) {
-	cfg := srvCfg{Prop: "C09", MaxMsgs: 5, MaxBatch: 3, SeqIDs: true, ReplyShaped: true, Pushes: 4, Stops: 1, HoldP: 0.4, NoteP: 0.4, KMax: 3}
+	cfg := srvCfg{Prop: "C09", MaxMsgs: 5, MaxBatch: 3, SeqIDs: true, ReplyShaped: true, Pushes: 4, Stops: 1, Cancels: 2, HoldP: 0.4, NoteP: 0.4, KMax: 3}
 	cfg.ForcePush = r.Gen.Chance("forcepush", 0.85)
 	w := newSrvWorld(r, cfg)
 	// the connection may also end by a channel failure or by the peer going away early
